@@ -206,7 +206,9 @@ impl<'tcx> Cx<'tcx> {
                 PlaceElem::Deref => "\"*\"".to_string(),
                 PlaceElem::Field(f, fty) => {
                     let mut name: Option<String> = None;
+                    let mut adt: Option<String> = None;
                     if let ty::Adt(def, _) = base_ty.ty.kind() {
+                        adt = Some(self.cpath(def.did()));
                         let vidx = base_ty.variant_index.unwrap_or(rustc_abi::FIRST_VARIANT);
                         if def.variants().len() > vidx.as_usize() {
                             let v = def.variant(vidx);
@@ -216,10 +218,11 @@ impl<'tcx> Cx<'tcx> {
                         }
                     }
                     format!(
-                        "{{\"f\":{},\"name\":{},\"ty\":{}}}",
+                        "{{\"f\":{},\"name\":{},\"ty\":{},\"adt\":{}}}",
                         f.as_usize(),
                         jopt(name.map(|n| jstr(&n))),
-                        self.ty(fty)
+                        self.ty(fty),
+                        jopt(adt.map(|n| jstr(&n)))
                     )
                 }
                 PlaceElem::Index(l) => format!("{{\"i\":{}}}", l.as_usize()),
